@@ -126,7 +126,8 @@ impl Event {
 #[derive(Default)]
 pub struct Behav {
     pub hold_us: AtomicU64,
-    /// 0 no panic; 1 panic inside `run`; 2 panic in `fetch` before borrowing anything
+    /// 0 no panic; 1 panic inside `run`; 2 panic in `fetch` before borrowing anything; 3 panic
+    /// inside `run` with a payload that is not a string (`panic_any`)
     pub panic_mode: AtomicUsize,
     /// wait (bounded) inside `run` until this many systems are inside at once
     pub rendezvous: AtomicUsize,
@@ -398,6 +399,9 @@ impl<'a> System<'a> for HSys {
         }
         if b.panic_mode.load(SeqCst) == 1 {
             panic!("harness panic (run) {} #{}", d.tag, sh.round.load(SeqCst));
+        }
+        if b.panic_mode.load(SeqCst) == 3 {
+            std::panic::panic_any(crate::common::HPanic { tag: d.tag, round: sh.round.load(SeqCst) });
         }
     }
     fn running_time(&self) -> RunningTime {
